@@ -183,6 +183,10 @@ def build_contract(p, sh, bodies, k0=0):
         runasm[".data"]["1"] = innerasm
     code, _ = section_code(p, sh, init, 1, k0)
     asm = {".code": code, ".data": {"0": runasm}}
+    if sh.get("sib"):
+        # a second code-bearing sub-assembly beside the run-time one (creation code of a child contract)
+        sc, _ = section_code(p, sh, (run[:2] or init[:1] or bodies[:1]), 1, k0 + 7)
+        asm[".data"]["1"] = {".code": sc, ".data": {"0": {".code": section_code(p, sh, bodies[:1], 1, k0 + 9)[0]}}}
     if sh["tophex"]:
         asm[".data"][HASH2] = "DEADBEEF"
     if sh["src"]:
@@ -207,7 +211,7 @@ def build_doc(sh, bodies):
     return {"contracts": contracts, "version": VERSION}
 
 
-SHAPE_KEYS = ("noasm", "nest", "tophex", "aux", "src", "jt", "md", "two")
+SHAPE_KEYS = ("noasm", "nest", "tophex", "aux", "src", "jt", "md", "two", "sib")
 
 
 def gen_shapes():
